@@ -37,6 +37,8 @@ struct World {
     fwds: HashMap<i64, Fwd<i64>>,
     deferrer: Option<Deferrer>,
     during: String,
+    // slabs built during Prep, handed to the value when the actor becomes Ready
+    pslabs: HashMap<i64, ActorOwnSlab<Node>>,
 }
 
 thread_local! {
@@ -258,25 +260,7 @@ impl<A: Copy, const N: usize> Pad<A, N> {
     }
 }
 
-const NSHAPES: i64 = 35;
-
-macro_rules! shaped {
-    ($shape:expr, $seed:expr, |$pad:ident| $body:expr) => {{
-        macro_rules! arm { ($a:ty, $n:expr) => {{ let $pad = Pad::<$a, $n>::new($seed); $body }}; }
-        match ($shape).rem_euclid(NSHAPES) {
-            0 => arm!(A1, 0), 1 => arm!(A1, 1), 2 => arm!(A1, 8), 3 => arm!(A1, 24),
-            4 => arm!(A1, 100), 5 => arm!(A1, 1000), 6 => arm!(A1, 4096),
-            7 => arm!(A8, 0), 8 => arm!(A8, 1), 9 => arm!(A8, 8), 10 => arm!(A8, 24),
-            11 => arm!(A8, 100), 12 => arm!(A8, 1000), 13 => arm!(A8, 4096),
-            14 => arm!(A16, 0), 15 => arm!(A16, 1), 16 => arm!(A16, 8), 17 => arm!(A16, 24),
-            18 => arm!(A16, 100), 19 => arm!(A16, 1000), 20 => arm!(A16, 4096),
-            21 => arm!(A64, 0), 22 => arm!(A64, 1), 23 => arm!(A64, 8), 24 => arm!(A64, 24),
-            25 => arm!(A64, 100), 26 => arm!(A64, 1000), 27 => arm!(A64, 4096),
-            28 => arm!(A128, 0), 29 => arm!(A128, 1), 30 => arm!(A128, 8), 31 => arm!(A128, 24),
-            32 => arm!(A128, 100), 33 => arm!(A128, 1000), _ => arm!(A128, 4096),
-        }
-    }};
-}
+include!("../inc/shapes.rs");
 
 // ---------------------------------------------------------------- items
 
@@ -323,7 +307,7 @@ impl Node {
             running: false,
             kept_owns: Vec::new(),
             kept_rets: Vec::new(),
-            slab: ActorOwnSlab::new(),
+            slab: w(|w| w.pslabs.remove(&aid)).unwrap_or_default(),
         }
     }
 
@@ -473,10 +457,16 @@ fn get_actor(aid: i64) -> Option<Actor<Node>> {
 }
 
 fn submit_ev(q: &str, item: &Value, extra: String) {
+    let hr = item
+        .get("holds")
+        .and_then(|h| h.get("rets"))
+        .cloned()
+        .unwrap_or(serde_json::json!([]));
     ev(format!(
-        r#"{{"e":"sub","q":"{}","item":{}{}}}"#,
+        r#"{{"e":"sub","q":"{}","item":{},"hr":{}{}}}"#,
         q,
         item["id"].as_i64().unwrap(),
+        hr,
         extra
     ));
 }
@@ -737,8 +727,20 @@ fn exec_op(op: &Value, ctx: &mut Ctx) {
                         r#"{{"e":"acreate","aid":{},"oid":0,"parent":{},"slab":true,"logid":{}}}"#,
                         aid, parent_aid, actor.id()
                     ));
+                } else if let Ctx::P(paid, cx) = ctx {
+                    // Parent still in Prep: the slab lives outside until Ready
+                    let paid = *paid;
+                    let parent = cx.this().clone();
+                    let mut slab = w(|w| w.pslabs.remove(&paid)).unwrap_or_default();
+                    actor = slab.add(cx, parent, |this| &mut this.slab, notify);
+                    w(|w| w.pslabs.insert(paid, slab));
+                    w(|w| w.refs.insert(aid, actor.clone()));
+                    ev(format!(
+                        r#"{{"e":"acreate","aid":{},"oid":0,"parent":{},"slab":true,"logid":{}}}"#,
+                        aid, parent_aid, actor.id()
+                    ));
                 } else {
-                    panic!("harness: slab create outside method");
+                    panic!("harness: slab create outside actor");
                 }
             } else {
                 let own = match ctx {
@@ -1105,6 +1107,7 @@ fn top_op(op: &Value, stk: &mut Option<Stakker>) {
             ev(format!(r#"{{"e":"run","t":{},"idle":{}}}"#, tj(t), idle));
             let r = s.run(t, idle);
             ev(format!(r#"{{"e":"runend","ret":{},"now":{}}}"#, r, tj(s.now())));
+            zombie_report();
         }
         "drain_nexp" => {
             // Event loop that always sleeps until next_expiry()
@@ -1210,6 +1213,15 @@ fn top_op(op: &Value, stk: &mut Option<Stakker>) {
     }
 }
 
+// is_zombie() of every actor known so far, in aid order
+fn zombie_report() {
+    let mut v: Vec<(i64, bool)> = w(|w| w.refs.iter().map(|(k, a)| (*k, a.is_zombie())).collect());
+    v.sort();
+    for (aid, z) in v {
+        ev(format!(r#"{{"e":"zombie","aid":{},"res":{}}}"#, aid, z));
+    }
+}
+
 fn flush() {
     let lines = w(|w| std::mem::take(&mut w.out));
     let stdout = std::io::stdout();
@@ -1228,6 +1240,14 @@ fn clear_world() {
     drop(rets);
     let fwds = w(|w| std::mem::take(&mut w.fwds));
     drop(fwds);
+    let ps = w(|w| std::mem::take(&mut w.pslabs));
+    let mut keys: Vec<i64> = ps.keys().cloned().collect();
+    keys.sort();
+    let mut ps = ps;
+    for k in keys {
+        ev(format!(r#"{{"e":"pslabdrop","aid":{}}}"#, k));
+        drop(ps.remove(&k));
+    }
     let refs = w(|w| std::mem::take(&mut w.refs));
     drop(refs);
     w(|w| w.timers.clear());
